@@ -40,6 +40,10 @@ var c07Families = []string{
 	"S: x A b c | x B b d | y A b d | y B b c ; A: a ; B: a",
 	"S: A b b b c | B b b b d ; A: a ; B: a",
 	"S: E ; E: A p E | B p q | a ; A: a ; B: a",
+	// two conflict states with different cores that look alike up to their nested lookahead tables
+	"S: p A a b | p B a c | q A a c | q C a b ; A: e ; B: e ; C: e",
+	"S: p A a b | p B a c | q B a b | q A a c ; A: e ; B: e",
+	"S: p X | q Y ; X: A a b | B a c ; Y: A a c | C a b ; A: e ; B: e ; C: e",
 }
 
 func c07Gen(t *rapid.T) c07Case {
@@ -81,6 +85,13 @@ func c07Check(c c07Case, r *ev.Recorder) *Failure {
 		return nil
 	}
 	r.Class(fmt.Sprintf("resolved-at-depth-%d", t.UsedLADepth))
+	tmin, err := lalr.Compile(lg, lalr.Options{Lookahead: c.K, MinimizeDFA: true})
+	if err != nil {
+		return failf("minimized-compile-fails", "lalr(%d) compiles, with minimizeDFA it reports %v; grammar: %s", c.K, err, g.String())
+	}
+	if tmin.NumStates < t.NumStates {
+		r.Class("minimizeDFA-merged-states")
+	}
 	cfg := g.toCFG()
 	deepVisited := 0
 	for ii, inp := range g.Inputs {
@@ -118,6 +129,15 @@ func c07Check(c c07Case, r *ev.Recorder) *Failure {
 			}
 			_ = wantErr
 			_ = reduced
+			if tmin != nil {
+				// the same grammar with minimizeDFA: states that consult deeper lookahead may be
+				// merged only if their nested lookahead tables agree
+				rm := tabint.Run(tmin, tabint.Opts{NumRules: len(lg.Rules)}, ii, toks)
+				r.Eval(1)
+				if rm.Overrun || rm.Accept != wantAcc {
+					return failf(fmt.Sprintf("accept-mismatch-minimized:want=%v", wantAcc), "with minimizeDFA (%d -> %d states) the parser accepts=%v (overrun=%v) but the string is in the language=%v (%s)", t.NumStates, tmin.NumStates, rm.Accept, rm.Overrun, wantAcc, where)
+				}
+			}
 			if res.DeepLA >= 1 {
 				deepVisited++
 			}
@@ -136,9 +156,9 @@ func c07Check(c c07Case, r *ev.Recorder) *Failure {
 func TestC07(t *testing.T) {
 	p := &prop[c07Case]{
 		ID:   "C07",
-		Rule: "80% mutated seeds of 17 LALR(k) families (reduce/reduce conflicts needing 2..4 tokens: common prefixes of fixed length, conflicts whose second token lies beyond the end of the enclosing rule, nullable middles, lists, eoi as second token, shared tails), 20% random grammars; Lookahead k in 2..8; kept when lalr.Compile reports no error and UsedLADepth>0. For every input, the tables are interpreted (deep-lookahead entries followed on the tokens after the current one, as resolveDeepLA does) on all short strings (<=2500), random sentences, near-misses and random strings and the accept bit is compared with an Earley recogniser. Non-trivial: a string whose parse consulted at least one extra lookahead token; distinct by (grammar JSON, k).",
+		Rule: "80% mutated seeds of 20 LALR(k) families (conflict states with different cores whose deep-lookahead tables differ,reduce/reduce conflicts needing 2..4 tokens: common prefixes of fixed length, conflicts whose second token lies beyond the end of the enclosing rule, nullable middles, lists, eoi as second token, shared tails), 20% random grammars; Lookahead k in 2..8; kept when lalr.Compile reports no error and UsedLADepth>0. For every input, the tables are interpreted (deep-lookahead entries followed on the tokens after the current one, as resolveDeepLA does) on all short strings (<=2500), random sentences, near-misses and random strings and the accept bit is compared with an Earley recogniser; the same for the tables compiled with MinimizeDFA. Non-trivial: a string whose parse consulted at least one extra lookahead token; distinct by (grammar JSON, k).",
 		Assume: []string{"Optimize=false: the displacement encoding does not support deep-lookahead entries", "error positions are not compared for LALR(k) (the statement speaks about the accepted language)"},
-		Quick: 6000, Thorough: 120000,
+		Quick: 18000, Thorough: 180000,
 		Gen:   c07Gen,
 		Check: c07Check,
 	}
